@@ -99,3 +99,19 @@ def cut_add(ex, st, fr, ins, a):
         st.ghost['cutctr'] = k + 1
         st.ghost[fkey] = k
     return [T.var('add%d_lo' % k, 0, (1 << 64) - 1), T.var('add%d_hi' % k, 0, (1 << 64) - 1)]
+
+
+def cut_uf_decimal(ex, st, fr, ins, a):
+    """any Decimal-valued function as an uninterpreted function of its arguments"""
+    def kid(x):
+        if isinstance(x, list):
+            return tuple(kid(y) for y in x)
+        return ('c', x) if isinstance(x, (int, bool)) else x.uid
+    callee = ins['fn']['n'] if ins.get('fn') else ins.get('invoke')
+    fkey = ('cutuf', callee) + tuple(kid(x) for x in a)
+    k = st.ghost.get(fkey)
+    if k is None:
+        k = st.ghost.get('cutctr', 0)
+        st.ghost['cutctr'] = k + 1
+        st.ghost[fkey] = k
+    return [T.var('uf%d_lo' % k, 0, (1 << 64) - 1), T.var('uf%d_hi' % k, 0, (1 << 64) - 1)]
